@@ -30,6 +30,13 @@ func runC01(c *core.Ctx) {
 	c.MinInstances("C01-MIRROR", MinPDUs)
 	c.MinInstances("C01-ERR", 2*MinPDUs)
 	c.MinInstances("C01-ONCE", 400)
+	// facts this argument rests on, decided by sibling rule sets and imported so that this check stands alone
+	c.MinInstances("C01-PRIM", 100)
+	c.MinInstances("C01-OPTS", 40)
+	c.MinInstances("C01-OWNED", 60)
+	importRules(c, "C20", "C01-PRIM", nil)
+	importRules(c, "C16", "C01-OPTS", nil)
+	importRulesFn(c, "C12", "C01-OWNED", func(sub *core.Ctx) { ownEncodeRules(sub, newAliasAnalysis(sub.Prog), "C12-ENCODE") }, nil)
 	c.Trust("go/types resolution of selectors to field objects", "primitive contracts of packet.Reader/Writer (decided by C20)",
 		"E2 spec tables for the text/binary classification of fixed slots (DESIGN.md Appendix A)")
 	c.NotDecided("concrete field values (quantified away by the structural argument)", "equality of optional-parameter sets (C16)", "primitive behaviour (C20)")
